@@ -130,6 +130,21 @@ theorem cex_exported_position_skips_event :
     p1.events.map (·.lbl) = [0, 1, 2] ∧ p2.next.pos = .map [(0, ⟨10, 2⟩)] ∧ p3.events.map (·.lbl) = [2] := by
   decide +kernel
 
+/-- **offset_laws_fixed_order** (statement, merged sources — not proved in general): for a cursor over any
+sources in a fixed leaf order (after f086c95: the tag-line order), un-ranged and unfiltered, with `fwd` the
+cursor's own forward read from `head`: `head + k` and `tail − k` are the slices of `fwd`. Instance:
+`offset_laws_fixed_order_instance` (cross-partition ties, both orders); tested at cursor level and through
+`Query` across incarnations (sections `cursor`, `incarn`, `offset-api`). The one-source case is the theorems above. -/
+def offset_laws_fixed_order_stmt : Prop :=
+  ∀ (srcs : List (Nat × Journal)) (k n : Nat),
+    (∀ s ∈ srcs, Sorted s.2 ∧ PosIds s.2 ∧ bw_ChunkBound s.2 ∧ IdsBelowTail s.2 ∧
+      s.2.Pairwise (fun _ _ => True) ∧ (flat s.2).Pairwise (fun a b => a.ts ≤ b.ts)) →
+    (srcs.map (·.1)).Nodup →
+    let mk := mkCur ((sortSrcs srcs).map (fun x => { name := x.1, jrnl := x.2 })) false none none false
+    let fwd := readN ((srcs.map (fun s => (flat s.2).length)).sum) (applyCorner mk false)
+    readN n (offset (applyCorner mk false) (k : Int)) = (fwd.drop k).take n ∧
+    readN n (offset (applyCorner mk true) (-(k : Int))) = (fwd.drop (fwd.length - k)).take n
+
 /-! ## tie order between partitions (finding #23, repaired by f086c95)
 
 `newCursor` now sorts its sources by tag line before it builds the mixer tree, so the leaf order — the
